@@ -203,7 +203,10 @@ partial def showExp (v : View) (lid : Nat) (env : List String) : Val → String
       | none =>
         match l.macros.find? (·.1 == g) with
         | some (_, lid2) =>
-          let env2 := args.map (showExp v lid env)
+          let env2 := (List.range args.length).map fun idx =>
+            match l.vlink.find? (fun (x : Nat × Nat × Nat) => x.1 == g && x.2.1 == idx) with
+            | some (_, _, k) => env.getD k "?"
+            | none => showExp v lid env (args.getD idx .nd)
           match findLevel v.st.levels lid2 with
           | none => "?"
           | some l2 => showExp v lid2 env2 (v.outs lid2 l2.outNode)
@@ -221,7 +224,16 @@ partial def showExp (v : View) (lid : Nat) (env : List String) : Val → String
 partial def envOf (v : View) (lid : Nat) : List String :=
   match v.parentOf lid with
   | none => []
-  | some (plid, g) => (v.args plid g).map (showExp v plid (envOf v plid))
+  | some (plid, g) =>
+    let penv := envOf v plid
+    let args := v.args plid g
+    match findLevel v.st.levels plid with
+    | none => []
+    | some pl =>
+      (List.range args.length).map fun idx =>
+        match pl.vlink.find? (fun (x : Nat × Nat × Nat) => x.1 == g && x.2.1 == idx) with
+        | some (_, _, k) => penv.getD k "?"
+        | none => showExp v plid penv (args.getD idx .nd)
 
 def showSt : Exec.St → String
   | .idle => "idle" | .out => "out" | .done => "done" | .failed => "failed"
@@ -314,7 +326,6 @@ def runCase (st : DSt) : List String :=
         let leaves := l.own.filter (fun i => !l.isMacro i && !l.isUi i)
         let outcome := if fin == "aborted" then "aborted" else if fin == "exited" then (if rs.s.errs.isEmpty then "ok" else "failedchild") else fin
         [ s!"{tag} wf {l.f.check} {f2.check}",
-          s!"{tag} cut {c.fin}",
           s!"{tag} cut flags " ++ " ".intercalate (l.own.map fun i =>
               s!"{i}:" ++ (if sn.failed i then "F" else if sn.running i then "R" else "-")),
           s!"{tag} cut out " ++ " ".intercalate (l.own.map fun i =>
